@@ -318,6 +318,12 @@ func (env *Env) tr(e *E) Val {
 				}
 			}
 		}
+		if e.A[0].K == "id" {
+			// a captured struct variable: its fields live in the heap under the cell's address
+			if v, ok := env.vars[e.A[0].S]; ok && v.Lazy && v.Loc != nil && v.Loc.Kind == "structptr" {
+				return env.field(Val{S: v.Loc.Base, Sort: "Int", G: types.NewPointer(v.Loc.T)}, e.S)
+			}
+		}
 		x := env.tr(e.A[0])
 		return env.field(x, e.S)
 	case "q":
@@ -823,6 +829,40 @@ func (env *Env) trCall(e *E) Val {
 		return Val{S: eq(a.S, b.S), Sort: "Bool"}
 	case "sid":
 		return Val{S: env.sidOf(env.view(arg(0))), Sort: "Int"}
+	case "deferIndex": // deferIndex("callee"): position of that deferred call in the current defer stack (registration order), -1 if absent
+		if len(e.A) != 1 || e.A[0].K != "str" {
+			sfail("deferIndex wants one string literal")
+		}
+		if env.st == nil {
+			sfail("deferIndex outside a function body")
+		}
+		r := "(- 1)"
+		for i, d := range env.st.defers {
+			if calleeName(&d.call.Call) == e.A[0].S {
+				r = ite(d.cond, fmt.Sprint(i), r)
+			}
+		}
+		return Val{S: r, Sort: "Int"}
+	case "isClosure": // isClosure(v, "Defer$1"): v is a closure of that function literal
+		if len(e.A) != 2 || e.A[1].K != "str" {
+			sfail("isClosure(v, \"name\")")
+		}
+		return Val{S: eq("(clofn "+arg(0).S+")", fmt.Sprint(fnID(e.A[1].S))), Sort: "Bool"}
+	case "capturedInt": // capturedInt(v, k): the current value of the k-th captured variable (reference-like or integer) of closure v
+		if len(e.A) != 2 || e.A[1].K != "int" {
+			sfail("capturedInt(v, k)")
+		}
+		cell := fmt.Sprintf("(clovar %s %d)", arg(0).S, e.A[1].N)
+		return Val{S: sel(env.heap("C_Int"), cell), Sort: "Int"}
+	case "deferCount":
+		if env.st == nil {
+			sfail("deferCount outside a function body")
+		}
+		r := "0"
+		for _, d := range env.st.defers {
+			r = add(r, ite(d.cond, "1", "0"))
+		}
+		return Val{S: r, Sort: "Int"}
 	case "fresh": // fresh(x): reference allocated after function entry
 		x := arg(0)
 		r := x.S
